@@ -75,3 +75,8 @@ Definition check_read
   list_eqb Z.eqb (sort_z (fetched_vars t)) fetched &&
   list_eqb Z.eqb (sort_z (in_memory_vars ds cs)) inmem &&
   match scan [] t with Some [] => true | _ => false end.
+
+(* the types of the literals, so that a shard whose lists all happen to be empty still type-checks *)
+Definition ops_case :=
+  (list (Z * Z * list nat * list (option Z)) * list cell * bool * list op * list (obs * trace))%type.
+Definition read_case := (list (Z * list Z * role) * bool * list Z * list Z)%type.
